@@ -660,6 +660,15 @@ class Interpreter:
             elif isinstance(leaf, CompoundState) and leaf.initial:
                 return MicroStep(entered_states=[leaf.initial])
 
+        # Enter the remaining children of an orthogonal state that was entered through one of
+        # its children only (e.g. by a transition that targets a state nested in that child)
+        names = set(names)
+        for name in sorted(names, key=lambda s: (self._statechart.depth_for(s), s)):
+            if isinstance(self._statechart.state_for(name), OrthogonalState):
+                missing = sorted(set(self._statechart.children_for(name)) - names)
+                if missing:
+                    return MicroStep(entered_states=missing)
+
         return None
 
     def _apply_step(self, step: MicroStep) -> MicroStep:
